@@ -6,9 +6,9 @@
 #include "verif.h"
 #include <stdarg.h>
 #include "main.c"
-#define NSP 22
-static char *SP[NSP] = {"-", "+", "<", "=", "/", "*", ".", "a", "1", "x1", "\"s\"", "L", "(", ")", ">", "&", "#", "1e", "...", "<<", "%", ":"};
-static int KD[NSP] = {TK_PUNCT, TK_PUNCT, TK_PUNCT, TK_PUNCT, TK_PUNCT, TK_PUNCT, TK_PUNCT, TK_IDENT, TK_PP_NUM, TK_IDENT, TK_STR, TK_IDENT, TK_PUNCT, TK_PUNCT, TK_PUNCT, TK_PUNCT, TK_PUNCT, TK_PP_NUM, TK_PUNCT, TK_PUNCT, TK_PUNCT, TK_PUNCT};
+#define NSP 26
+static char *SP[NSP] = {"-", "+", "<", "=", "/", "*", ".", "a", "1", "x1", "\"s\"", "L", "(", ")", ">", "&", "#", "1e", "...", "<<", "%", ":", "--", "++", "&&", "->"};
+static int KD[NSP] = {TK_PUNCT, TK_PUNCT, TK_PUNCT, TK_PUNCT, TK_PUNCT, TK_PUNCT, TK_PUNCT, TK_IDENT, TK_PP_NUM, TK_IDENT, TK_STR, TK_IDENT, TK_PUNCT, TK_PUNCT, TK_PUNCT, TK_PUNCT, TK_PUNCT, TK_PP_NUM, TK_PUNCT, TK_PUNCT, TK_PUNCT, TK_PUNCT, TK_PUNCT, TK_PUNCT, TK_PUNCT, TK_PUNCT};
 // ghost writer
 #define GL 16
 int g_n; int g_kind[GL]; char *g_ptr[GL];   /* 1 newline, 2 space, 3 token */
@@ -52,10 +52,10 @@ static int spec_first_len(const char *s) {
 }
 int nondet_int_(void); _Bool nondet_bool_(void);
 void harness(void) {
-  Token T[3]; char cat[12];
+  Token T[3]; char cat[16];
   int i0 = nondet_int_(), i1 = nondet_int_(); ASSUME(0 <= i0 && i0 < NSP && 0 <= i1 && i1 < NSP);
   int idx[2] = {i0, i1};
-  for (int i = 0; i < 2; i++) { T[i] = (Token){0}; T[i].kind = KD[idx[i]]; T[i].loc = SP[idx[i]]; T[i].len = (int)strlen(SP[idx[i]]); T[i].at_bol = nondet_bool_(); T[i].has_space = nondet_bool_(); T[i].next = &T[i + 1]; }
+  for (int i = 0; i < 2; i++) { T[i] = (Token){0}; T[i].kind = (KD[idx[i]] == TK_PP_NUM && nondet_bool_()) ? TK_NUM : KD[idx[i]];   /* numbers are TK_NUM once convert_pp_tokens has run, TK_PP_NUM before */ T[i].loc = SP[idx[i]]; T[i].len = (int)strlen(SP[idx[i]]); T[i].at_bol = nondet_bool_(); T[i].has_space = nondet_bool_(); T[i].next = &T[i + 1]; }
   T[2] = (Token){0}; T[2].kind = TK_EOF;
   ASSUME(T[0].at_bol);                         /* the first token of a file begins a line */
   opt_o = 0; g_n = 0;
